@@ -130,8 +130,8 @@ class Scanner:
     #
     def scan_verb(self, latex, start):
         def verb_err():
-            return utils.latex_error('bad \\verb argument',
-                                        start, latex, self.parms)[0]
+            return self.error_token(utils.latex_error('bad \\verb argument',
+                                        start, latex, self.parms))
         start_arg = start + len('\\verb')
         if start_arg >= self.max_pos:
             return verb_err()
@@ -143,6 +143,13 @@ class Scanner:
             return verb_err()
         self.pos += 1
         return defs.VerbatimToken(start_arg, latex[start_arg:self.pos-1])
+
+    #   utils.latex_error() may split the error mark into two tokens:
+    #   join them, as next_token() has to return a single token
+    #
+    def error_token(self, toks):
+        return defs.TextToken(toks[0].pos, ''.join(t.txt for t in toks),
+                                    pos_fix=True)
 
     #   scan \begin{verbatim} ... \end{verbatim}
     #
@@ -157,8 +164,8 @@ class Scanner:
         pos += len('{verbatim}')
         end = latex.find('\\end{verbatim}', pos)
         if end < 0:
-            return utils.latex_error('missing end of verbatim',
-                                            start, latex, self.parms)[0]
+            return self.error_token(utils.latex_error(
+                    'missing end of verbatim', start, latex, self.parms))
         self.pos = end + len('\\end{verbatim}')
         return defs.VerbatimToken(pos, latex[pos:end], environ=True)
 
